@@ -6,7 +6,7 @@ Contracts (sidecar):
       ensures  func(p) = c + g.p + 1/2 p'Hp  ==>  result == H[ii][jj]      (all four stencil branches)
       assigns  nothing reachable from p0, eps
   get_grad(func, p0, eps, args)
-      ensures  quadratic func, all p0_i != 0 and p0_i*eps >= 1e-6 (central branch) ==> grad_i == g_i + (H p0)_i
+      ensures  quadratic func, all p0_i != 0 and |p0_i*eps| >= 1e-6 (central branch) ==> grad_i == g_i + (H p0)_i
                linear func (any branch incl. one-sided and p0_i == 0)            ==> grad_i == g_i
       assigns  nothing reachable from p0
   get_hess(func, p0, eps, args)
@@ -193,7 +193,7 @@ def ob_get_grad(n, kind):
         eps = z3.Real('eps')
         hyps = [eps > 0]
         if kind == 'quadratic':
-            hyps += [p != 0 for p in p0s] + [p * eps >= Fraction(1, 10 ** 6) for p in p0s]
+            hyps += [p != 0 for p in p0s] + [z3.Or(p * eps >= Fraction(1, 10 ** 6), p * eps <= -Fraction(1, 10 ** 6)) for p in p0s]
 
         def thunk(ex):
             p0 = VList(p0s); p0.owner = 'p0'
@@ -283,8 +283,9 @@ def ob_get_hess_rule():
             # classify the path by its condition
             from vf import smt
             is_zero = smt.check(pth.pc, p == 0, timeout_ms=5000)['status'] == 'proved'
-            is_tiny = smt.check(pth.pc, z3.And(p != 0, p * eps < Fraction(1, 10 ** 6)), timeout_ms=5000)['status'] == 'proved'
-            is_reg = smt.check(pth.pc, z3.And(p != 0, p * eps >= Fraction(1, 10 ** 6)), timeout_ms=5000)['status'] == 'proved'
+            tiny = z3.And(p * eps < Fraction(1, 10 ** 6), p * eps > -Fraction(1, 10 ** 6))
+            is_tiny = smt.check(pth.pc, z3.And(p != 0, tiny), timeout_ms=5000)['status'] == 'proved'
+            is_reg = smt.check(pth.pc, z3.And(p != 0, z3.Not(tiny)), timeout_ms=5000)['status'] == 'proved'
             if is_zero:
                 seen.add('zero')
                 out.append(prove('%s.zero.eps' % oid, pth.pc, to_real(e0) == eps, func=fn))
